@@ -13,7 +13,7 @@ MANIFEST = {
              "every truthy/falsy value) are SMT variables. The resulting heap must equal the reference: members in "
              "first-mention / side-array order, one new link of exactly the requested type per listed pair / truthy "
              "cell, oriented key->value / row->column, appended in input order after the prior links; prior universes "
-             "kept; neighbors() reads the adjacency back; a non-square matrix or wrong side array raises ValueError "
+             "kept; neighbors() and find_links() read the adjacency back (dictionary values given as lists or as one-shot iterators); a non-square matrix or wrong side array raises ValueError "
              "with the whole heap unchanged.",
     "note": "Bounds: 3 vertices, dict of <= 2 (quick) / 3 entries with <= 2 values each, matrix up to 3x3 (row lengths "
             "0..3), one prior link and one prior universe. Trusted: pysym (validated per path on CPython), z3, the "
@@ -56,7 +56,7 @@ def required_markers(tier):
 PRE = '''
 from edgegraph.builder.adjlist import load_adj_dict
 from edgegraph.builder.adjmatrix import load_adj_matrix
-from edgegraph.traversal.helpers import neighbors
+from edgegraph.traversal.helpers import neighbors, find_links
 from refmodel import ref_adj_pairs_dict, ref_adj_pairs_matrix, built_ok, incident_pairs
 pre_links = [list(x._links) for x in pool]
 pre_unis = [list(x._universes) for x in pool]
@@ -68,14 +68,18 @@ uni = None
 
 PROG_DICT = PRE + '''
 adj = {}
+given = {}
 for k, vs in entries:
     adj[k] = vs
+    # the values only have to be iterable: a one-shot iterator is as good as a list
+    given[k] = iter(vs) if oneshot else vs
 try:
-    uni = load_adj_dict(adj, linktype)
+    uni = load_adj_dict(given, linktype)
 except Exception as exc:
     raised = type(exc).__name__
 ok = False
 readback = True
+readback_fl = True
 if uni is not None:
     members, pairs = ref_adj_pairs_dict(adj)
     ok = built_ok(uni, pool, pre_links, pre_unis, members, pairs, linktype)
@@ -88,6 +92,12 @@ if uni is not None:
                 elif undirected:
                     want.append(p[0])
             readback = readback and (neighbors(x, 0, 1) == want)
+            for y in pool:
+                n = 0
+                for p in pairs:
+                    if (p[0] is x and p[1] is y) or (undirected and p[0] is y and p[1] is x and not (x is y)):
+                        n = n + 1
+                readback_fl = readback_fl and (len(find_links(x, y)) == n)
 frame = (P._vertices == pre_members) and ([list(l._vertices) for l in plinks] == pre_ends)
 '''
 
@@ -135,6 +145,7 @@ def scenario(B, p):
             entries.append(B.mktuple([B.ref(f"key{i}", verts), B.reflist(f"vals{i}", verts, 2, 2)]))
         env["entries"] = B.mklist(entries)
         env["check_readback"] = not p["prior"]
+        env["oneshot"] = B.bool("oneshot_values") if not p["prior"] else False
         env["undirected"] = p["lt"] != "DE"
         out = B.run(PROG_DICT, env)
         B.observe("raised", out["raised"])
@@ -144,6 +155,7 @@ def scenario(B, p):
         B.prove("load_adj_dict does not raise", out["raised"] is None)
         B.prove("members, new links (type, orientation, order) and prior structure exactly as described", out["ok"])
         B.prove("neighbors() reads the input adjacency back", out["readback"])
+        B.prove("find_links() reads the input adjacency back", out["readback_fl"])
         B.prove("prior universe and prior links untouched", out["frame"])
         return
     if p["builder"] == "matrix":
